@@ -68,5 +68,6 @@ def table_index(ctx, prog, eff, rule='TABLE-INDEX', files=None):
                 f.s(x)[:60], N, str(b)[:60], ' - the index is computed from a caller- or file-supplied value' if True else ''), None)
     for fk in sorted(set(fz) - used):
         if files is None:
-            ctx.require(False, 'tables/table_index.tsv lists %s, which no longer needs (or has) an exception' % fk)
+            # an exception that nothing uses any more hides nothing: the subscript is gone (the table is walked by pointer now) or is proved; recorded, not judged
+            ctx.notes.append('tables/table_index.tsv lists %s, which no longer needs (or has) an exception' % fk)
     return n, notes
